@@ -194,6 +194,99 @@ func runTD(c *Ctx, rule string, which map[string]bool) {
 	r.floor(rule+"/packages", len(u.TC), "one generated package per template-coverage struct")
 }
 
+// chainList: fn (a method on the writer) returns the list of page writers obtained by walking the chain from the
+// receiver (or its child) through .child until nil, appending each exactly once, in order.
+func chainList(fn *ssa.Function) (startSelf, startChild, ok bool) {
+	if fn == nil || fn.Blocks == nil || len(fn.Params) == 0 {
+		return
+	}
+	var walk *ssa.Phi
+	for _, b := range fn.Blocks {
+		for _, ins := range b.Instrs {
+			phi, isPhi := ins.(*ssa.Phi)
+			if !isPhi || len(phi.Edges) != 2 {
+				continue
+			}
+			step := false
+			for _, e := range phi.Edges {
+				if ld, isLd := e.(*ssa.UnOp); isLd && ld.Op == token.MUL {
+					if fa, isFA := ld.X.(*ssa.FieldAddr); isFA && fa.X == ssa.Value(phi) && fieldOf(fa) != nil && fieldOf(fa).Name() == "child" {
+						step = true
+					}
+				}
+			}
+			if step {
+				walk = phi
+			}
+		}
+	}
+	if walk == nil {
+		return
+	}
+	for _, e := range walk.Edges {
+		if e == ssa.Value(fn.Params[0]) {
+			startSelf = true
+		} else if f := recvFieldLoad(fn, e); f != nil && f.Name() == "child" {
+			startChild = true
+		}
+	}
+	// loop test: walk != nil, nothing else
+	iff, isIf := lastInstr(walk.Block()).(*ssa.If)
+	if !isIf {
+		return
+	}
+	bo, isBo := iff.Cond.(*ssa.BinOp)
+	if !isBo || bo.X != ssa.Value(walk) || !isNilConst(bo.Y) || (bo.Op != token.NEQ && bo.Op != token.EQL) {
+		return
+	}
+	body := walk.Block().Succs[0]
+	if bo.Op == token.EQL {
+		body = walk.Block().Succs[1]
+	}
+	// the list: phi[empty, append(list, walk)] in the same header; appended in the body unconditionally
+	var list *ssa.Phi
+	for _, ins := range walk.Block().Instrs {
+		phi, isPhi := ins.(*ssa.Phi)
+		if !isPhi || phi == walk {
+			continue
+		}
+		if _, isSl := phi.Type().Underlying().(*types.Slice); !isSl {
+			continue
+		}
+		grows, empty := false, false
+		for _, e := range phi.Edges {
+			switch y := e.(type) {
+			case *ssa.Const:
+				empty = y.IsNil()
+			case *ssa.MakeSlice:
+				empty = constIs(y.Len, 0)
+			case *ssa.Call:
+				if bi, isB := y.Call.Value.(*ssa.Builtin); isB && bi.Name() == "append" && y.Call.Args[0] == ssa.Value(phi) {
+					vals := appendedValues(y)
+					if len(vals) == 1 && vals[0] == ssa.Value(walk) && y.Block() == body {
+						grows = true
+					}
+				}
+			}
+		}
+		if grows && empty {
+			list = phi
+		}
+	}
+	if list == nil {
+		return
+	}
+	for _, b := range fn.Blocks {
+		if ret, isRet := lastInstr(b).(*ssa.Return); isRet {
+			if len(ret.Results) != 1 || ret.Results[0] != ssa.Value(list) {
+				return
+			}
+		}
+	}
+	ok = startSelf || startChild
+	return
+}
+
 // tdWrite: per column index, the parent's page first, then the page of every writer in the child chain, same index.
 func tdWrite(c *Ctx, rule, path, short string) {
 	r, u := c.R, c.U
@@ -272,6 +365,8 @@ func tdWrite(c *Ctx, rule, path, short string) {
 	writes := invokesOf(ctxFn, "Write")
 	var parent, chainW *ssa.Call
 	var chain *ssa.Phi
+	var listLoop *cloop
+	listSelf, listChild := false, false
 	for _, w := range writes {
 		ld, ok := w.Call.Value.(*ssa.UnOp)
 		if !ok || ld.Op != token.MUL {
@@ -310,11 +405,64 @@ func tdWrite(c *Ctx, rule, path, short string) {
 				bad = append(bad, "two chain walks")
 			}
 			chainW, chain = w, bv
+		case *ssa.UnOp:
+			// an element of a materialised list of page writers: for _, pg := range p.chain()
+			handled := false
+			for _, l2 := range countedLoops(ctxFn) {
+				if !l2.elemOf(bv) {
+					continue
+				}
+				lc, isCall := l2.seq.(*ssa.Call)
+				if !isCall || lc.Call.StaticCallee() == nil || len(lc.Call.Args) == 0 || lc.Call.Args[0] != ssa.Value(ctxFn.Params[0]) {
+					continue
+				}
+				sSelf, sChild, okList := chainList(lc.Call.StaticCallee())
+				if !okList {
+					continue
+				}
+				handled = true
+				if chainW != nil {
+					bad = append(bad, "two chain walks")
+				}
+				chainW, listLoop, listSelf, listChild = w, l2, sSelf, sChild
+				if !l2.full {
+					bad = append(bad, "the loop over the page writers does not visit every page")
+				}
+			}
+			if !handled {
+				bad = append(bad, "a Field.Write is on "+symExpr(w.Call.Value, 0)+": neither the parent's column nor a column of a writer of the child chain")
+			}
 		default:
 			bad = append(bad, "a Field.Write is on "+symExpr(w.Call.Value, 0)+": neither the parent's column nor a column of a writer of the child chain")
 		}
 	}
-	if chainW == nil {
+	if chainW != nil && listLoop != nil {
+		// list form: the list is the chain in order; the only conditions between pages are the loop test and earlier writes
+		switch {
+		case parent != nil && !listChild:
+			bad = append(bad, "the parent's page is written twice (once on its own, once as the first element of the list)")
+		case parent == nil && !listSelf:
+			bad = append(bad, "the parent's own page is not written (the list of pages starts at p.child)")
+		}
+		if parent != nil && !dominatesInstr(parent, chainW) {
+			bad = append(bad, "the child chain's pages are written before the parent's page: the records of a column chunk come out of order")
+		}
+		from := entry
+		if parent != nil {
+			from = parent.Block()
+		}
+		for _, g := range extraGuards(chainW.Block(), from) {
+			if ev, isErr := isErrNilTest(g.cond); isErr {
+				if cl, isCall := ev.(*ssa.Call); isCall && cl.Call.IsInvoke() && cl.Call.Method.Name() == "Write" {
+					continue
+				}
+			}
+			if g.cond == listLoop.iff.Cond && g.truth {
+				continue
+			}
+			bad = append(bad, fmt.Sprintf("a page of the chain is written only when %s is %v: pages (and the records in them) can be skipped", symExpr(g.cond, 0), g.truth))
+		}
+	} else if chainW == nil {
 		bad = append(bad, "the pages of the child writers (records beyond the first page of a row group) are not written")
 	} else {
 		startSelf, startChild, stepOK := false, false, false
@@ -654,26 +802,34 @@ func readerFields(u *Universe, path string) (*readerRoles, string) {
 	if rr.gcount == nil {
 		return nil, "readRowGroup does not take the row group's row count from RowGroup.Rows"
 	}
-	// cursors: the fields Next compares with them
-	for _, b := range next.Blocks {
-		iff, ok := lastInstr(b).(*ssa.If)
-		if !ok {
+	// cursors: the fields Next (or a helper method it calls) compares with them
+	for _, g := range unitFns(u, next) {
+		if g == rrg {
 			continue
 		}
-		bo, ok := iff.Cond.(*ssa.BinOp)
-		if !ok {
-			continue
-		}
-		x, y := recvFieldLoad(next, stripConvert(bo.X)), recvFieldLoad(next, stripConvert(bo.Y))
-		for _, p := range [][2]*types.Var{{x, y}, {y, x}} {
-			if p[0] == nil || p[1] == nil {
-				continue
-			}
-			if p[1] == rr.rows {
-				rr.cursor = p[0]
-			}
-			if p[1] == rr.gcount {
-				rr.gcursor = p[0]
+		for _, b := range g.Blocks {
+			for _, ins := range b.Instrs {
+				bo, ok := ins.(*ssa.BinOp)
+				if !ok {
+					continue
+				}
+				switch bo.Op {
+				case token.LSS, token.LEQ, token.GTR, token.GEQ, token.EQL, token.NEQ:
+				default:
+					continue
+				}
+				x, y := recvFieldLoad(g, stripConvert(bo.X)), recvFieldLoad(g, stripConvert(bo.Y))
+				for _, p := range [][2]*types.Var{{x, y}, {y, x}} {
+					if p[0] == nil || p[1] == nil {
+						continue
+					}
+					if p[1] == rr.rows {
+						rr.cursor = p[0]
+					}
+					if p[1] == rr.gcount {
+						rr.gcursor = p[0]
+					}
+				}
 			}
 		}
 	}
@@ -692,239 +848,134 @@ func readerFields(u *Universe, path string) (*readerRoles, string) {
 	return rr, ""
 }
 
-const tdInf = 1 << 30
+// tdUnit: a root function with the helper methods it calls on its own object ("self"): what a template method was
+// before someone split it up. self is the receiver of a method, or the object a constructor builds.
+type tdUnit struct {
+	u     *Universe
+	root  *ssa.Function
+	fns   []*ssa.Function
+	self  map[*ssa.Function]ssa.Value
+	sites map[*ssa.Function]*ssa.Call // the call through which a helper is entered
+}
 
-// tdNext: Next is true exactly Rows() times on an error-free read and loads the next row group exactly when the
-// current one is used up.
-func tdNext(c *Ctx, rule, path, short string) {
-	r, u := c.R, c.U
-	key := short + ".(*ParquetReader).Next"
-	roles, why := readerFields(u, path)
-	if roles == nil {
-		r.undecided(rule, key, "", why)
-		return
-	}
-	fn := u.Func(path, "ParquetReader.Next")
-	pos := u.Pos(fn.Pos())
-	rrg := u.Func(path, "ParquetReader.readRowGroup")
-	type state struct {
-		ub, lb     map[string]int // bounds on (pos0 - limit0) for "file" and "group"
-		inc        map[*types.Var]int
-		clobbered  map[*types.Var]bool
-		loadInc    map[ssa.Value]int
-		loaded     bool
-		loadOK     bool
-		errPath    bool // an error is known to be pending on this path (excused from the counting rules)
-		entryErr   bool // the reader already held an error when Next was called
-		pendingErr map[ssa.Value]bool
-	}
-	clone := func(s *state) *state {
-		n := &state{ub: map[string]int{}, lb: map[string]int{}, inc: map[*types.Var]int{}, clobbered: map[*types.Var]bool{}, loadInc: map[ssa.Value]int{}, loaded: s.loaded, loadOK: s.loadOK, errPath: s.errPath, entryErr: s.entryErr, pendingErr: map[ssa.Value]bool{}}
-		for k, v := range s.ub {
-			n.ub[k] = v
-		}
-		for k, v := range s.lb {
-			n.lb[k] = v
-		}
-		for k, v := range s.inc {
-			n.inc[k] = v
-		}
-		for k, v := range s.clobbered {
-			n.clobbered[k] = v
-		}
-		for k, v := range s.loadInc {
-			n.loadInc[k] = v
-		}
-		for k, v := range s.pendingErr {
-			n.pendingErr[k] = v
-		}
-		return n
-	}
-	var bad []string
-	addBad := func(s string) {
-		for _, b := range bad {
-			if b == s {
-				return
-			}
-		}
-		bad = append(bad, s)
-	}
-	returnsTrue, returnsFalse := 0, 0
-	var walk func(b *ssa.BasicBlock, s *state, depth int)
-	walk = func(b *ssa.BasicBlock, s *state, depth int) {
-		if depth > 40 {
-			addBad("Next contains a loop: not analysed")
-			return
-		}
-		for _, ins := range b.Instrs {
-			switch x := ins.(type) {
-			case *ssa.UnOp:
-				if f := recvFieldLoad(fn, x); f != nil {
-					s.loadInc[x] = s.inc[f]
-				}
-			case *ssa.Store:
-				f := fieldOf(x.Addr)
-				if f == nil {
+func newTDUnit(u *Universe, root *ssa.Function, self ssa.Value, exclude map[*ssa.Function]bool) *tdUnit {
+	t := &tdUnit{u: u, root: root, fns: []*ssa.Function{root}, self: map[*ssa.Function]ssa.Value{root: self}, sites: map[*ssa.Function]*ssa.Call{}}
+	for i := 0; i < len(t.fns) && i < 16; i++ {
+		f := t.fns[i]
+		for _, b := range f.Blocks {
+			for _, ins := range b.Instrs {
+				call, ok := ins.(*ssa.Call)
+				if !ok {
 					continue
 				}
-				if f == roles.cursor || f == roles.gcursor {
-					if bo, ok := x.Val.(*ssa.BinOp); ok && bo.Op == token.ADD && constIs(bo.Y, 1) && recvFieldLoad(fn, bo.X) == f && s.loadInc[bo.X] == s.inc[f] {
-						s.inc[f]++
-					} else {
-						s.clobbered[f] = true
-					}
+				sc := call.Call.StaticCallee()
+				if sc == nil || sc.Blocks == nil || exclude[sc] || t.self[sc] != nil || u.pkgPathOf(sc) != u.pkgPathOf(root) || len(call.Call.Args) == 0 || len(sc.Params) == 0 {
+					continue
 				}
-				if f == roles.err {
-					// p.err = <result of readRowGroup>
-					if cl, ok := x.Val.(*ssa.Call); ok && cl.Call.StaticCallee() == rrg {
-						s.pendingErr[x.Val] = true
-					}
+				if call.Call.Args[0] != t.self[f] || sc.Signature.Recv() == nil {
+					continue
 				}
-			case *ssa.Call:
-				if x.Call.StaticCallee() == rrg {
-					s.loaded, s.loadOK = true, false
-					s.ub["group"], s.lb["group"] = tdInf, -tdInf
-					s.pendingErr[x] = true
-				}
-			case *ssa.If:
-				var tS, fS = clone(s), clone(s)
-				if bo, ok := x.Cond.(*ssa.BinOp); ok {
-					// error tests
-					if ev, isErr := isErrNilTest(x.Cond); isErr {
-						eqNil := bo.Op == token.EQL
-						isRRG := false
-						if cl, ok := ev.(*ssa.Call); ok && cl.Call.StaticCallee() == rrg {
-							isRRG = true
-						}
-						if ld, ok := ev.(*ssa.UnOp); ok && recvFieldLoad(fn, ld) == roles.err {
-							if s.loaded {
-								isRRG = true // p.err was just assigned the result of readRowGroup
-							} else {
-								// the sticky error at entry: calling Next again after a failure is outside C01
-								if eqNil {
-									fS.errPath, fS.entryErr = true, true
-								} else {
-									tS.errPath, tS.entryErr = true, true
-								}
-							}
-						}
-						if isRRG {
-							if eqNil {
-								tS.loadOK, fS.errPath = true, true
-							} else {
-								fS.loadOK, tS.errPath = true, true
-							}
-						}
-					} else {
-						fx, fy := recvFieldLoad(fn, stripConvert(bo.X)), recvFieldLoad(fn, stripConvert(bo.Y))
-						pair, sign := "", 0
-						switch {
-						case fx == roles.cursor && fy == roles.rows:
-							pair, sign = "file", 1
-						case fx == roles.rows && fy == roles.cursor:
-							pair, sign = "file", -1
-						case fx == roles.gcursor && fy == roles.gcount:
-							pair, sign = "group", 1
-						case fx == roles.gcount && fy == roles.gcursor:
-							pair, sign = "group", -1
-						}
-						if pair != "" {
-							// X - Y rel 0 on each edge, X - Y = sign*(pos0 + k - limit0)
-							k := 0
-							if sign == 1 {
-								k = s.loadInc[stripConvert(bo.X)]
-							} else {
-								k = s.loadInc[stripConvert(bo.Y)]
-							}
-							apply := func(st *state, lo, hi int) {
-								// lo <= X-Y <= hi
-								if sign == -1 {
-									lo, hi = -hi, -lo
-								}
-								// now lo <= pos0 + k - limit0 <= hi
-								if hi < tdInf && hi-k < st.ub[pair] {
-									st.ub[pair] = hi - k
-								}
-								if lo > -tdInf && lo-k > st.lb[pair] {
-									st.lb[pair] = lo - k
-								}
-							}
-							switch bo.Op {
-							case token.LSS:
-								apply(tS, -tdInf, -1)
-								apply(fS, 0, tdInf)
-							case token.LEQ:
-								apply(tS, -tdInf, 0)
-								apply(fS, 1, tdInf)
-							case token.GTR:
-								apply(tS, 1, tdInf)
-								apply(fS, -tdInf, 0)
-							case token.GEQ:
-								apply(tS, 0, tdInf)
-								apply(fS, -tdInf, -1)
-							case token.EQL:
-								apply(tS, 0, 0)
-							case token.NEQ:
-								apply(fS, 0, 0)
-							}
-						}
-					}
-				}
-				walk(b.Succs[0], tS, depth+1)
-				walk(b.Succs[1], fS, depth+1)
-				return
-			case *ssa.Jump:
-				walk(b.Succs[0], s, depth+1)
-				return
-			case *ssa.Return:
-				k, isConst := x.Results[0].(*ssa.Const)
-				if !isConst || k.Value == nil || k.Value.Kind() != constant.Bool {
-					addBad("Next returns a computed value: not analysed")
-					return
-				}
-				if constant.BoolVal(k.Value) {
-					returnsTrue++
-					if s.entryErr || (s.errPath && !s.loadOK) {
-						return
-					}
-					if s.clobbered[roles.cursor] || s.inc[roles.cursor] != 1 {
-						addBad(fmt.Sprintf("a true result advances the row position %d times (want exactly once): Next is then true a different number of times than Rows()", s.inc[roles.cursor]))
-					}
-					if s.ub["file"] > -1 {
-						addBad("Next can return true without the position having been found < Rows(): it is true more than Rows() times (the extra Scan reads past the last record)")
-					}
-					if !(s.loaded && s.loadOK) {
-						if s.ub["group"] > -1 {
-							addBad("Next can return true with the current row group used up and no new one loaded: Scan then reads a record that is not there")
-						}
-						if s.clobbered[roles.gcursor] || s.inc[roles.gcursor] != 1 {
-							addBad("a true result does not advance the position within the row group exactly once")
-						}
-					} else if s.inc[roles.gcursor] != 1 {
-						addBad("after loading a row group the position within it is not advanced for the record returned")
-					}
-				} else {
-					returnsFalse++
-					if s.errPath {
-						return
-					}
-					if s.lb["file"] < 0 {
-						addBad("Next can return false on an error-free read while the position is still < Rows(): the last records are never delivered")
-					}
-				}
-				return
+				t.self[sc] = sc.Params[0]
+				t.sites[sc] = call
+				t.fns = append(t.fns, sc)
 			}
 		}
 	}
-	walk(fn.Blocks[0], &state{ub: map[string]int{"file": tdInf, "group": tdInf}, lb: map[string]int{"file": -tdInf, "group": -tdInf}, inc: map[*types.Var]int{}, clobbered: map[*types.Var]bool{}, loadInc: map[ssa.Value]int{}, pendingErr: map[ssa.Value]bool{}}, 0)
-	if returnsTrue == 0 {
-		addBad("Next never returns true")
+	return t
+}
+
+// selfField: v loads a field of the unit's object; returns the field.
+func (t *tdUnit) selfField(v ssa.Value) *types.Var {
+	ld, ok := v.(*ssa.UnOp)
+	if !ok || ld.Op != token.MUL {
+		return nil
 	}
-	if len(bad) > 0 {
-		r.bad(rule, key, pos, strings.Join(bad, "; "))
-	} else {
-		r.ok(rule, key, pos, fmt.Sprintf("true only with %s < %s (Rows()), advancing it once; a new row group is loaded exactly when %s has reached %s; false without error only at the end", roles.cursor.Name(), roles.rows.Name(), roles.gcursor.Name(), roles.gcount.Name()))
+	return t.selfFieldAddr(ld.X)
+}
+
+func (t *tdUnit) selfFieldAddr(a ssa.Value) *types.Var {
+	f := fieldOf(a)
+	if f == nil {
+		return nil
 	}
+	for {
+		fa, ok := a.(*ssa.FieldAddr)
+		if !ok {
+			break
+		}
+		a = fa.X
+	}
+	ins, ok := a.(ssa.Value)
+	if !ok {
+		return nil
+	}
+	var fn *ssa.Function
+	switch x := ins.(type) {
+	case *ssa.Parameter:
+		fn = x.Parent()
+	case ssa.Instruction:
+		fn = x.Parent()
+	}
+	if fn == nil || t.self[fn] != a {
+		return nil
+	}
+	return f
+}
+
+// chain: the instruction preceded by the call sites through which its function is reached from the root.
+func (t *tdUnit) chain(ins ssa.Instruction) []ssa.Instruction {
+	out := []ssa.Instruction{ins}
+	for f := ins.Parent(); f != t.root; {
+		site := t.sites[f]
+		if site == nil {
+			return nil
+		}
+		out = append([]ssa.Instruction{site}, out...)
+		f = site.Parent()
+	}
+	return out
+}
+
+// before: a is executed before b on every path to b (dominance, looking through the unit's helper calls).
+func (t *tdUnit) before(a, b ssa.Instruction) bool {
+	ca, cb := t.chain(a), t.chain(b)
+	if ca == nil || cb == nil {
+		return false
+	}
+	for i := 0; i < len(ca) && i < len(cb); i++ {
+		if ca[i] != cb[i] {
+			return dominatesInstr(ca[i], cb[i])
+		}
+	}
+	return false
+}
+
+func (t *tdUnit) calls(pred func(*ssa.Call) bool) []*ssa.Call {
+	var out []*ssa.Call
+	for _, f := range t.fns {
+		for _, b := range f.Blocks {
+			for _, ins := range b.Instrs {
+				if c, ok := ins.(*ssa.Call); ok && pred(c) {
+					out = append(out, c)
+				}
+			}
+		}
+	}
+	return out
+}
+
+func (t *tdUnit) stores(fld *types.Var) []*ssa.Store {
+	var out []*ssa.Store
+	for _, f := range t.fns {
+		for _, b := range f.Blocks {
+			for _, ins := range b.Instrs {
+				if st, ok := ins.(*ssa.Store); ok && t.selfFieldAddr(st.Addr) == fld && fld != nil {
+					out = append(out, st)
+				}
+			}
+		}
+	}
+	return out
 }
 
 // tdCtor: the constructor takes the row count from the footer it just read and positions the source behind the
@@ -939,8 +990,23 @@ func tdCtor(c *Ctx, rule, path, short string) {
 		return
 	}
 	pos := u.Pos(fn.Pos())
+	rrg := u.Func(path, "ParquetReader.readRowGroup")
+	// the object under construction: what the constructor returns
+	var self ssa.Value
+	for _, b := range fn.Blocks {
+		if ret, ok := lastInstr(b).(*ssa.Return); ok && len(ret.Results) == 2 {
+			if al, ok := ret.Results[0].(*ssa.Alloc); ok {
+				self = al
+			}
+		}
+	}
+	if self == nil {
+		r.undecided(rule, key, pos, "the constructor does not return a reader it allocates")
+		return
+	}
+	t := newTDUnit(u, fn, self, map[*ssa.Function]bool{rrg: true})
 	var bad []string
-	rf := callsNamed(fn, "ReadFooter")
+	rf := t.calls(func(c *ssa.Call) bool { sc := c.Call.StaticCallee(); return sc != nil && sc.Name() == "ReadFooter" && u.pkgPathOf(sc) == rtPath })
 	if len(rf) != 1 {
 		r.undecided(rule, key, pos, "NewParquetReader does not call ReadFooter exactly once")
 		return
@@ -948,25 +1014,19 @@ func tdCtor(c *Ctx, rule, path, short string) {
 	meta := rf[0].Call.Args[0]
 	// rows
 	rowsOK := false
-	for _, b := range fn.Blocks {
-		for _, ins := range b.Instrs {
-			st, ok := ins.(*ssa.Store)
-			if !ok || fieldOf(st.Addr) != roles.rows {
-				continue
-			}
-			call, ok := stripConvert(st.Val).(*ssa.Call)
-			if ok && call.Call.StaticCallee() != nil && call.Call.StaticCallee().Name() == "Rows" && u.pkgPathOf(call.Call.StaticCallee()) == rtPath && call.Call.Args[0] == meta && dominatesInstr(rf[0], call) {
-				rowsOK = true
-			} else {
-				bad = append(bad, "the reader's row count is set to "+symExpr(st.Val, 0)+", want Rows() of the footer just read")
-			}
+	for _, st := range t.stores(roles.rows) {
+		call, ok := stripConvert(st.Val).(*ssa.Call)
+		if ok && call.Call.StaticCallee() != nil && call.Call.StaticCallee().Name() == "Rows" && u.pkgPathOf(call.Call.StaticCallee()) == rtPath && call.Call.Args[0] == meta && t.before(rf[0], call) {
+			rowsOK = true
+		} else {
+			bad = append(bad, "the reader's row count is set to "+symExpr(st.Val, 0)+", want Rows() of the footer just read")
 		}
 	}
 	if !rowsOK {
 		bad = append(bad, "the reader's row count ("+roles.rows.Name()+") is not taken from the footer: Next() would be true a different number of times than the file has rows")
 	}
 	// seek behind the magic
-	magicLen := int64(-1)
+	magicLen := int64(4)
 	if g, ok := u.SSAPkgs[path].Members["par1"].(*ssa.Global); ok {
 		init := u.SSAPkgs[path].Func("init")
 		for _, b := range init.Blocks {
@@ -981,23 +1041,21 @@ func tdCtor(c *Ctx, rule, path, short string) {
 			}
 		}
 	}
-	if magicLen < 0 {
-		magicLen = 4
-	}
-	rrgCalls := callsNamed(fn, "readRowGroup")
+	rrgCalls := t.calls(func(c *ssa.Call) bool { return c.Call.StaticCallee() == rrg })
+	seeks := t.calls(func(c *ssa.Call) bool { return c.Call.IsInvoke() && c.Call.Method.Name() == "Seek" && len(c.Call.Args) == 2 })
 	seekOK := false
-	for _, sk := range invokesOf(fn, "Seek") {
-		if sk.Call.Value != ssa.Value(fn.Params[0]) {
+	for _, sk := range seeks {
+		if !t.before(rf[0], sk) {
 			continue
 		}
-		if constIs(sk.Call.Args[0], magicLen) && constIs(sk.Call.Args[1], 0) && dominatesInstr(rf[0], sk) {
+		if constIs(sk.Call.Args[0], magicLen) && constIs(sk.Call.Args[1], 0) {
 			seekOK = true
 			for _, rc := range rrgCalls {
-				if !dominatesInstr(sk, rc) {
+				if !t.before(sk, rc) {
 					seekOK = false
 				}
 			}
-		} else if dominatesInstr(rf[0], sk) {
+		} else {
 			bad = append(bad, fmt.Sprintf("after the footer the source is positioned with Seek(%s, %s), want Seek(%d, io.SeekStart): the first page header starts right behind the leading magic", symExpr(sk.Call.Args[0], 0), symExpr(sk.Call.Args[1], 0), magicLen))
 		}
 	}
@@ -1024,74 +1082,81 @@ func tdRowGroup(c *Ctx, rule, path, short string) {
 		return
 	}
 	pos := u.Pos(fn.Pos())
+	t := newTDUnit(u, fn, fn.Params[0], nil)
 	var bad []string
-	reads := invokesOf(fn, "Read")
+	reads := t.calls(func(c *ssa.Call) bool { return c.Call.IsInvoke() && c.Call.Method.Name() == "Read" && len(c.Call.Args) == 2 })
 	if len(reads) != 1 {
 		r.undecided(rule, key, pos, fmt.Sprintf("%d Field.Read call sites", len(reads)))
 		return
 	}
 	rd := reads[0]
+	keySym := func(v ssa.Value) string { return symExpr(throughParams(v), 0) }
 	// receiver: p.fields[name]
-	var nameKey ssa.Value
-	if ex, ok := rd.Call.Value.(*ssa.Extract); ok {
-		if lk, ok := ex.Tuple.(*ssa.Lookup); ok {
-			if f := recvFieldLoad(fn, lk.X); f != nil && f.Name() == "fields" {
-				nameKey = lk.Index
-			}
+	nameKey := ""
+	lookupOf := func(v ssa.Value) *ssa.Lookup {
+		if ex, ok := v.(*ssa.Extract); ok {
+			v = ex.Tuple
 		}
-	} else if lk, ok := rd.Call.Value.(*ssa.Lookup); ok {
-		if f := recvFieldLoad(fn, lk.X); f != nil && f.Name() == "fields" {
-			nameKey = lk.Index
+		lk, _ := v.(*ssa.Lookup)
+		return lk
+	}
+	if lk := lookupOf(rd.Call.Value); lk != nil {
+		if f := t.selfField(lk.X); f != nil && f.Name() == "fields" {
+			nameKey = keySym(lk.Index)
 		}
 	}
-	if nameKey == nil {
+	var nameVal ssa.Value
+	if lk := lookupOf(rd.Call.Value); lk != nil {
+		nameVal = throughParams(lk.Index)
+	}
+	if nameKey == "" {
 		bad = append(bad, "the column that reads is not p.fields[<column name>]")
 	}
-	// page argument: pages[name][0]
+	// page argument: <pages>[name][0]
 	var pagesLookup *ssa.Lookup
-	if len(rd.Call.Args) == 2 {
-		if ld, ok := rd.Call.Args[1].(*ssa.UnOp); ok && ld.Op == token.MUL {
-			if ia, ok := ld.X.(*ssa.IndexAddr); ok {
-				if !constIs(ia.Index, 0) {
-					bad = append(bad, "the chunk descriptor handed to Read is entry "+symExpr(ia.Index, 0)+" of the column's list, want the first (the list is consumed front to back)")
-				}
-				pagesLookup, _ = ia.X.(*ssa.Lookup)
+	if ld, ok := rd.Call.Args[1].(*ssa.UnOp); ok && ld.Op == token.MUL {
+		if ia, ok := ld.X.(*ssa.IndexAddr); ok {
+			if !constIs(ia.Index, 0) {
+				bad = append(bad, "the chunk descriptor handed to Read is entry "+symExpr(ia.Index, 0)+" of the column's list, want the first (the list is consumed front to back)")
 			}
+			pagesLookup = lookupOf(ia.X)
 		}
 	}
 	var pagesField *types.Var
 	if pagesLookup == nil {
 		bad = append(bad, "the chunk descriptor handed to Read is not <pages>[name][0]")
 	} else {
-		pagesField = recvFieldLoad(fn, pagesLookup.X)
+		pagesField = t.selfField(pagesLookup.X)
 		if pagesField == nil {
 			bad = append(bad, "the chunk descriptors do not come from a field of the reader")
 		}
-		if nameKey != nil && pagesLookup.Index != nameKey && symExpr(pagesLookup.Index, 0) != symExpr(nameKey, 0) {
-			bad = append(bad, "the chunk descriptor is looked up under "+symExpr(pagesLookup.Index, 0)+" but the column under "+symExpr(nameKey, 0))
+		if nameKey != "" && keySym(pagesLookup.Index) != nameKey {
+			bad = append(bad, "the chunk descriptor is looked up under "+keySym(pagesLookup.Index)+" but the column under "+nameKey)
 		}
 	}
 	// consumed: pages[name] = pages[name][1:] after a successful Read
 	if pagesField != nil {
 		okAdv := false
-		for _, b := range fn.Blocks {
-			for _, ins := range b.Instrs {
-				mu, ok := ins.(*ssa.MapUpdate)
-				if !ok || recvFieldLoad(fn, mu.Map) != pagesField {
-					continue
-				}
-				sl, ok := mu.Value.(*ssa.Slice)
-				if !ok || !constIs(sl.Low, 1) || sl.High != nil {
-					bad = append(bad, "the column's chunk list is set to "+symExpr(mu.Value, 0)+", want it advanced by exactly the one chunk read")
-					continue
-				}
-				lk, ok := sl.X.(*ssa.Lookup)
-				if !ok || recvFieldLoad(fn, lk.X) != pagesField || symExpr(lk.Index, 0) != symExpr(mu.Key, 0) || (nameKey != nil && symExpr(mu.Key, 0) != symExpr(nameKey, 0)) {
-					bad = append(bad, "the chunk list that is advanced is not the one of the column just read")
-					continue
-				}
-				if dominatesInstr(rd, mu) {
-					okAdv = true
+		for _, f := range t.fns {
+			for _, b := range f.Blocks {
+				for _, ins := range b.Instrs {
+					mu, ok := ins.(*ssa.MapUpdate)
+					if !ok || t.selfField(mu.Map) != pagesField {
+						continue
+					}
+					sl, ok := mu.Value.(*ssa.Slice)
+					if !ok || !constIs(sl.Low, 1) || sl.High != nil {
+						bad = append(bad, "the column's chunk list is set to "+symExpr(mu.Value, 0)+", want it advanced by exactly the one chunk read")
+						continue
+					}
+					lk := lookupOf(sl.X)
+					if lk == nil || t.selfField(lk.X) != pagesField || keySym(lk.Index) != keySym(mu.Key) || (nameKey != "" && keySym(mu.Key) != nameKey) {
+						bad = append(bad, "the chunk list that is advanced is not the one of the column just read")
+						continue
+					}
+					if t.before(rd, mu) {
+						okAdv = true
+					}
 				}
 			}
 		}
@@ -1100,14 +1165,16 @@ func tdRowGroup(c *Ctx, rule, path, short string) {
 		}
 	}
 	// row groups: element 0 used, list advanced by one
-	rgField := (*types.Var)(nil)
-	for _, b := range fn.Blocks {
-		for _, ins := range b.Instrs {
-			if ia, ok := ins.(*ssa.IndexAddr); ok {
-				if f := recvFieldLoad(fn, ia.X); f != nil && f.Name() == "rowGroups" {
-					rgField = f
-					if !constIs(ia.Index, 0) {
-						bad = append(bad, "the row group read is entry "+symExpr(ia.Index, 0)+", want the first of the remaining ones")
+	var rgField *types.Var
+	for _, f := range t.fns {
+		for _, b := range f.Blocks {
+			for _, ins := range b.Instrs {
+				if ia, ok := ins.(*ssa.IndexAddr); ok {
+					if fl := t.selfField(ia.X); fl != nil && fl.Name() == "rowGroups" {
+						rgField = fl
+						if !constIs(ia.Index, 0) {
+							bad = append(bad, "the row group read is entry "+symExpr(ia.Index, 0)+", want the first of the remaining ones")
+						}
 					}
 				}
 			}
@@ -1117,18 +1184,12 @@ func tdRowGroup(c *Ctx, rule, path, short string) {
 		bad = append(bad, "readRowGroup does not take the first of the remaining row groups")
 	} else {
 		adv := false
-		for _, b := range fn.Blocks {
-			for _, ins := range b.Instrs {
-				st, ok := ins.(*ssa.Store)
-				if !ok || fieldOf(st.Addr) != rgField {
-					continue
-				}
-				sl, ok := st.Val.(*ssa.Slice)
-				if ok && constIs(sl.Low, 1) && sl.High == nil && recvFieldLoad(fn, sl.X) == rgField {
-					adv = true
-				} else {
-					bad = append(bad, "the list of remaining row groups is set to "+symExpr(st.Val, 0))
-				}
+		for _, st := range t.stores(rgField) {
+			sl, ok := st.Val.(*ssa.Slice)
+			if ok && constIs(sl.Low, 1) && sl.High == nil && t.selfField(sl.X) == rgField {
+				adv = true
+			} else {
+				bad = append(bad, "the list of remaining row groups is set to "+symExpr(st.Val, 0))
 			}
 		}
 		if !adv {
@@ -1139,15 +1200,11 @@ func tdRowGroup(c *Ctx, rule, path, short string) {
 	roles, _ := readerFields(u, path)
 	if roles != nil {
 		reset := false
-		for _, b := range fn.Blocks {
-			for _, ins := range b.Instrs {
-				if st, ok := ins.(*ssa.Store); ok && fieldOf(st.Addr) == roles.gcursor {
-					if constIs(st.Val, 0) {
-						reset = true
-					} else {
-						bad = append(bad, "the position within the row group is set to "+symExpr(st.Val, 0)+", want 0")
-					}
-				}
+		for _, st := range t.stores(roles.gcursor) {
+			if constIs(st.Val, 0) {
+				reset = true
+			} else {
+				bad = append(bad, "the position within the row group is set to "+symExpr(st.Val, 0)+", want 0")
 			}
 		}
 		if !reset {
@@ -1155,8 +1212,8 @@ func tdRowGroup(c *Ctx, rule, path, short string) {
 		}
 	}
 	// column lookup key agrees with the key getFields files the columns under
-	if nameKey != nil {
-		if why := keyAgreement(u, path, fn, nameKey); why != "" {
+	if nameVal != nil {
+		if why := keyAgreement(u, path, fn, nameVal); why != "" {
 			bad = append(bad, why)
 		}
 	}
@@ -1210,7 +1267,7 @@ func keyAgreement(u *Universe, path string, fn *ssa.Function, key ssa.Value) str
 	for _, b := range gf.Blocks {
 		for _, ins := range b.Instrs {
 			if mu, ok := ins.(*ssa.MapUpdate); ok {
-				if call, ok := mu.Key.(*ssa.Call); ok && call.Call.IsInvoke() && call.Call.Method.Name() == "Name" && call.Call.Value == mu.Value {
+				if call, ok := mu.Key.(*ssa.Call); ok && call.Call.IsInvoke() && call.Call.Method.Name() == "Name" && (call.Call.Value == mu.Value || symExpr(call.Call.Value, 0) == symExpr(mu.Value, 0)) {
 					okKey = true
 				} else {
 					return "getFields files a column under " + symExpr(mu.Key, 0) + ", want its Name()"
